@@ -1,9 +1,12 @@
 import JP.Check
 import JP.Legacy.Check
+import JP.Legacy.CheckFloat
 import JP.Codec.EncodeWire
 import JP.Codec.Decode
 import JP.Codec.Stream
 import JP.Codec.TypedWire
+import JP.Codec.FloatDriver
+import JP.Heap.DriverHeap
 
 /-!
 # Request handling of the line-protocol driver (pure part)
@@ -137,7 +140,7 @@ def handleApply (id : String) (args : List String) : String :=
             | _ => .ok
           (a.and b).and c
         | _ => .unspec
-      reply id corr (showObs model)
+      Heap.tagCorr (Heap.heapAgrees o d p) <| reply id corr (showObs model)
         [("C01", v01), ("C04", v04), ("C05", v05), ("C08", v08), ("C09", v09), ("C12", v12), ("C13", v13), ("C14", v14), ("C15", v15)]
         (specClass s ++ "/" ++ obsClass obs ++ "/" ++ kindsSig p ++ "/" ++ flags ++ (if o.limit > 0 then "L" else ""))
     | _, _, _, _, _ => bad id "apply-fields"
@@ -898,22 +901,19 @@ def handleLCreate (id : String) (args : List String) : String :=
   | a :: b :: "=>" :: r1 :: r2 :: _ =>
     match hexField a, hexField b, parseObs r1, parseObs r2 with
     | some x, some y, some (pobs, _), some (mobs, _) =>
-      let v19 : Verdict :=
-        match parseValueOf x, parseValueOf y with
-        | some va, some vb =>
-          if !(va.isObj && vb.isObj) || !(floatExact va && floatExact vb) then .unspec
-          else c03 x y pobs mobs
-        | _, _ => .unspec
-      -- numbers outside the modelled `float64` domain: no model, visible in `sig`
+      -- C19's domain (object roots, numbers spelled the way Go prints a float64) is decided inside `c19create`
+      let v19 : Verdict := Legacy.c19create x y pobs mobs
+      -- the model speaks for every input (numbers are float64: `JP/Legacy/MergeFloat.lean`); `sig` tells
+      -- the inputs of the former integer-only model from the others
       let modelled := Legacy.createModelled x y
-      let mP := obsOf (Legacy.createMergePatch x y)
+      let mP := obsOf (Legacy.createMergePatchF x y)
       let mM : Obs := match mP with
         | .ok pb => obsOf (Legacy.mergePatch x pb)
         | _ => .err '-'
-      let corr := !modelled || (sameObs mP pobs && sameObs mM mobs)
-      reply id corr (if modelled then showObs mP ++ "|" ++ showObs mM else "-")
+      let corr := sameObs mP pobs && sameObs mM mobs
+      reply id corr (showObs mP ++ "|" ++ showObs mM)
         [("C19", v19), ("C04", if pobs.bad || mobs.bad then .viol "panic-or-hang" else .ok)]
-        ("L/" ++ obsClass pobs ++ (if modelled then "" else "/nomodel"))
+        ("L/" ++ obsClass pobs ++ (if modelled then "" else "/float"))
     | _, _, _, _ => bad id "lcreate-fields"
   | _ => bad id "lcreate-arity"
 
@@ -933,6 +933,7 @@ def handle1 (line : String) : String :=
   | "CODEC" :: id :: "typed" :: args => Codec.Typed.handleTyped id args
   | "CODEC" :: id :: args => handleCodec id args
   | "STD" :: id :: args => handleStd id args
+  | "FLOAT" :: id :: args => Codec.Float.handleFloat id args
   | "STREAM" :: id :: args => handleStream id args
   | "CLI" :: id :: args => handleCli id args
   | "LAPPLY" :: id :: args => handleLApply id args
